@@ -350,6 +350,7 @@ func rulesC01(c *Ctx) {
 	})
 
 	c.Rule("R-C01-8", "a transport's producer goroutine cannot die silently: its exit always reaches the session's reader (close or error), otherwise pending calls stay blocked (streamable client: R-C09-3)", func() { ruleC01ProducerExit(c) })
+	c.Rule("R-C01-9", "streamable client: a call whose response stream breaks is completed by a synthetic error or by failing the connection, never left pending (shared with R-C09-3)", func() { ruleStreamNeverSilent(c) })
 
 	c.Rule("R-C01-7", "closing errors are mapped to ErrConnectionClosed before the context arm; shuttingDown returns nil or an error wrapping its argument", func() {
 		call := c.Fn(pM, "", "call")
